@@ -8,7 +8,7 @@ CHECK = {
     "thorough": {"shards": 16, "timeout": 3600},
     "required_categories": ["float", "double", "method_cholesky", "method_svd", "method_weighted", "precond_general", "precond_graded_nearly_diagonal",
                             "precond_diagonal", "history_with_shrink", "problem_written_through_kept_references", "problem_at_exact_buffer_capacity", "history_with_growth", "estimate_size_1", "estimate_size_8",
-                            "constructed_default_then_setEstimateSize", "constructed_for_another_estimate_size_then_setEstimateSize", "constructed_with_estimate_size",
+                            "regressors_orthogonal_up_to_a_small_coupling", "constructed_default_then_setEstimateSize", "constructed_for_another_estimate_size_then_setEstimateSize", "constructed_with_estimate_size",
                             "estimate_size_changed_in_history", "history_continues_on_copy_constructed", "history_continues_on_copy_assigned",
                             "history_continues_on_move_constructed", "history_continues_on_move_assigned"],
     "required_oracles": ["normal_equations.cholesky", "normal_equations.svd", "normal_equations.weighted", "agrees_with_qr",
